@@ -34,7 +34,7 @@ def declaredRoots (doc : Doc) (types : List TypeD) : Roots :=
 
 /-- the declared content; `none` when some member cannot be built (wrong default, unknown reference…) -/
 def Declared (doc : Doc) : Option SchemaD :=
-  let env : Env := { defs := merged doc }
+  let env : Env := Env.of (merged doc)
   match (merged doc).mapM (buildTypeDef env), (dirDefs doc).mapM (buildDirective env) with
   | .ok ts, .ok ds =>
     let r := declaredRoots doc ts
